@@ -102,15 +102,20 @@ def natBytes (n : Nat) : Bytes := strBytes (toString n)
 def intBytes (n : Int) : Bytes := strBytes (toString n)
 def hostPort (h : Bytes) (p : Int) : Bytes := h ++ [58] ++ intBytes p
 
+/-- one advertised broker: update the address of a known one in place, or push a new one -/
+def brokerStep (acc : List Broker × List (Int × Nat)) (b : BrokerMd) : List Broker × List (Int × Nat) :=
+  let host := hostPort b.host b.port
+  match assocGet acc.2 b.nodeId with
+  | some i => (acc.1.set i ⟨(acc.1[i]?.map (·.nodeId)).getD b.nodeId, host⟩, acc.2)
+  | none => (acc.1 ++ [⟨b.nodeId, host⟩], assocSet acc.2 b.nodeId acc.1.length)
+
+/-- the node-id ↦ index map of the brokers already known -/
+def brokerIndex (bs : List Broker) : List (Int × Nat) :=
+  (List.range bs.length).zip bs |>.foldl (fun m (i, b) => assocSet m b.nodeId i) []
+
 /-- `update_brokers` (state.rs:318-352): returns the node-id ↦ index map -/
 def updateBrokers (bs : List Broker) (md : List BrokerMd) : List Broker × List (Int × Nat) :=
-  let idx0 : List (Int × Nat) :=
-    (List.range bs.length).zip bs |>.foldl (fun m (i, b) => assocSet m b.nodeId i) []
-  md.foldl (fun (acc : List Broker × List (Int × Nat)) b =>
-    let host := hostPort b.host b.port
-    match assocGet acc.2 b.nodeId with
-    | some i => (acc.1.set i ⟨(acc.1[i]?.map (·.nodeId)).getD b.nodeId, host⟩, acc.2)
-    | none => (acc.1 ++ [⟨b.nodeId, host⟩], assocSet acc.2 b.nodeId acc.1.length)) (bs, idx0)
+  md.foldl brokerStep (bs, brokerIndex bs)
 
 def resize (ps : List Nat) (m : Nat) : List Nat :=
   if ps.length > m then ps.take m else ps ++ List.replicate (m - ps.length) UNKNOWN
